@@ -7,7 +7,8 @@ correspondence : public functions of pyamg/gallery/{stencil,laplacian,diffusion,
 search         : the clauses of the property judged on the real outputs by independent oracles: direct definition of the
                  truncated stencil operator, format / dtype, symmetry, Z-pattern + positive spectrum + closed-form
                  tensor-product spectrum of the Poisson matrices (numerically; exactly on the rational Chebyshev roots:
-                 A v = lambda v, x^T A x > 0, in rational arithmetic -- extension E21), zero sum of the diffusion stencils, symmetry / positive
+                 A v = lambda v, x^T A x > 0, in rational arithmetic -- extension E21; completeness of that spectrum is a
+                 theorem since extension E45 and cross-checked numerically / exactly on the all-rational grids), zero sum of the diffusion stencils, symmetry / positive
                  definiteness of the stiffness matrix, A_free @ B_free = 0, Dirichlet system = interior principal part of the
                  free system, (A @ B)[rows not coupled to the boundary] = 0, B = the three rigid-body fields.
 """
@@ -35,15 +36,14 @@ META = {
             'up to 8 / 4x4 / 3x3x3 quick, 16 / 6x6 / 4x4x4 / 2^4 thorough, FD/FE) and of the Dirichlet elasticity matrix on '
             'seeded integer vectors (random, constant, one-hot); closed-form eigenpairs on grids with extents in '
             '{1,2,3,5,8,11} (the extents whose U_g has the rational roots 0, +-1/2) and the 1-D Chebyshev residual identity for '
-            'c = k/4, all in exact rational arithmetic on the real integer matrices; non-trivial = nonzero vector, n >= 2',
-    'search_only': ['COMPLETENESS of the closed-form spectrum of the Poisson matrices: every closed-form pair (eigenvalue '
-                    'sum_i (2 - 2 cos(k_i pi/(g_i+1))) resp. 3^N - prod_i (1 + 2 cos(k_i pi/(g_i+1))), product eigenvector, '
-                    'nonzero) IS an eigenpair of the model matrix in every dimension / grid (theorems poisson_fd_spectrum(_real), '
-                    'poisson_fe_spectrum(_real), algebraic form over any field of characteristic 0 via Chebyshev U_n roots), and '
-                    'the matrices are positive definite / nonsingular (poisson_posdef); that these prod g_i pairs exhaust the '
-                    'spectrum with multiplicities (linear independence of the product vectors) is not a theorem: the sorted '
-                    'numeric spectrum is compared with the formula, tolerance 1e-9 relative',
-                    'format / dtype of the returned sparse arrays (SciPy conversions are outside the model)',
+            'c = k/4, all in exact rational arithmetic on the real integer matrices; non-trivial = nonzero vector, n >= 2. '
+            'Extension E45 (completeness of the closed-form spectrum, now theorems): every grid in {1,2}^N, N <= 3 (+ three '
+            '4-D ones) quick / N <= 4 thorough, FD/FE: exact kernel dimensions of the real matrix against the number of index '
+            'tuples per closed-form value, exact spectral reconstruction and completeness relation from the driver; the index '
+            'tuples of the theorems (tuplesQ) on every grid up to 7 / 4x4 / 3x3x3 / 2^4 (quick) resp. 14 / 6x6 / 4x4x4 / 3^4 '
+            'against itertools.product, and the closed form on them against numpy eigvalsh of the real matrices; '
+            'non-trivial = matrix size >= 2',
+    'search_only': ['format / dtype of the returned sparse arrays (SciPy conversions are outside the model)',
                     'float evaluation of cos/sin and of the Lame parameters: the model is exact on (C, S, E, nu); the real '
                     'outputs are compared with it within 1e-12 / 1e-10 relative'],
     'partial': [],
@@ -57,7 +57,14 @@ META = {
                     'float pair satisfies it to 1 ulp and the real stencil sum is judged with tolerance 64 eps * sum |entries|',
                     'the matrix denoted by a triple list adds duplicates (proof-side readings entry / rowdot / rowsum / qform are run by '
                     'the driver and compared with the real matrices); SciPy COO->CSR duplicate summation, BSR products '
-                    'P.T @ A @ P, dia_array semantics and LAPACK eigvalsh are trusted'],
+                    'P.T @ A @ P, dia_array semantics and LAPACK eigvalsh are trusted',
+                    'completeness of the closed-form Poisson spectrum (every eigenvalue is a closed-form value, the prod g_i '
+                    'product vectors are an orthogonal basis, characteristic polynomial = prod over the index tuples, '
+                    'multiplicity = number of tuples; 1-D: simple spectrum) is PROVED for the model matrices over the reals '
+                    '(extension E45: poisson_fd/fe_eigenvalue_complete, poisson_tensor_span/_linindep, poisson_fd/fe_eigenspace, '
+                    'poisson_fd/fe_charpoly, poisson_fd/fe_multiplicity, poisson_1d_*); the comparison of the sorted float spectrum '
+                    'of the real matrices with the formula (1e-9 relative) remains as a cross-check, and on grids with extents 1, 2 '
+                    '(all roots rational) kernel dimensions and the spectral reconstruction are compared exactly'],
 }
 
 FORMATS = [None, 'csr', 'csc', 'coo', 'bsr', 'dia', 'lil', 'dok']
@@ -1027,6 +1034,143 @@ def part_e21(ctx, lean=True, deep=False):
                 ctx.corr('q12d[dirichlet]: model x^T A x <= 0 (contradicts q12d_dirichlet_posdef)', case, f[1], '')
 
 
+# ---------------------------------------------------------------- extension E45: completeness of the closed-form spectrum
+
+def _fr_rank(M):
+    """rank of a matrix of Fractions by exact elimination"""
+    M = [row[:] for row in M]
+    rk, rows, cols = 0, len(M), len(M[0]) if M else 0
+    for c in range(cols):
+        piv = next((r for r in range(rk, rows) if M[r][c] != 0), None)
+        if piv is None:
+            continue
+        M[rk], M[piv] = M[piv], M[rk]
+        for r in range(rk + 1, rows):
+            if M[r][c] != 0:
+                f = M[r][c] / M[rk][c]
+                M[r] = [a - f * b for a, b in zip(M[r], M[rk])]
+        rk += 1
+    return rk
+
+
+_E45_ROOT = {(1, 1): Fraction(0), (2, 1): Fraction(1, 2), (2, 2): Fraction(-1, 2)}
+
+
+def _e45_formula(grid, ty, ks):
+    cs = [_E45_ROOT[(g, k)] for g, k in zip(grid, ks)]
+    return sum(2 - 2 * c for c in cs) if ty == 'FD' else Fraction(3) ** len(grid) - math.prod(1 + 2 * c for c in cs)
+
+
+def judge_e45(case):
+    """theorems poisson_fd/fe_multiplicity + poisson_fd/fe_eigenvalue_complete judged on the real matrix alone, exactly,
+    on a grid with extents in {1, 2} (all Chebyshev roots rational): for every closed-form value mu the real matrix has
+    dim ker(A - mu I) = number of index tuples giving mu (these numbers add up to the size, so there is no other eigenvalue)"""
+    grid, ty = case['grid'], case['type']
+    D = _poisson_dense(grid, ty)
+    tag = f'poisson({tuple(grid)}, type={ty!r})'
+    if D is None:
+        return [f'{tag}: non-integer entries'], None
+    n = D.shape[0]
+    cnt = {}
+    for ks in itertools.product(*[range(1, g + 1) for g in grid]):
+        lam = _e45_formula(grid, ty, ks)
+        cnt[lam] = cnt.get(lam, 0) + 1
+    bad = []
+    for lam, c in sorted(cnt.items()):
+        M = [[Fraction(int(D[i, j])) - (lam if i == j else 0) for j in range(n)] for i in range(n)]
+        nul = n - _fr_rank(M)
+        if nul != c:
+            bad.append(f'{tag}: the closed-form value {lam} is given by {c} index tuple(s) but dim ker(A - {lam} I) = {nul}: '
+                       f'the closed-form eigenpairs do not exhaust the spectrum with multiplicities')
+    return bad, {'D': D, 'cnt': cnt}
+
+
+def e45_cases(ctx, deep=False):
+    Nmax = 4 if (deep or not ctx.quick) else 3
+    for N in range(1, Nmax + 1):
+        for grid in itertools.product((1, 2), repeat=N):
+            for ty in ('FD', 'FE'):
+                yield {'part': 'e45-recon', 'grid': list(grid), 'type': ty}
+    if ctx.quick and not deep:
+        for grid in ((2, 2, 2, 2), (1, 2, 2, 1), (2, 1, 1, 2)):
+            for ty in ('FD', 'FE'):
+                yield {'part': 'e45-recon', 'grid': list(grid), 'type': ty}
+    lim = {1: 7, 2: 4, 3: 3, 4: 2} if (ctx.quick and not deep) else {1: 14, 2: 6, 3: 4, 4: 3}
+    for N, m in lim.items():
+        for grid in itertools.product(range(1, m + 1), repeat=N):
+            yield {'part': 'e45-tuples', 'grid': list(grid)}
+
+
+def part_e45(ctx, lean=True, deep=False):
+    """extension E45 (completeness of the closed-form spectrum): the numbering of the index tuples the theorems use
+    (`tuplesQ`) against the enumeration of the numeric spectrum comparison, the numeric spectrum of the real matrix
+    against the closed form evaluated on the theorem's tuples, and -- exactly, on the grids with rational Chebyshev roots
+    only -- kernel dimensions of the real matrix and the spectral reconstruction from the closed-form eigenpairs"""
+    lines, meta = [], []
+    for case in e45_cases(ctx, deep):
+        n = int(np.prod(case['grid']))
+        ctx.case(key=_key('e45', case), nontrivial=n >= 2, sample=dict(case) if ctx.evaluations % 97 == 0 else None)
+        ctx.feat(f'{case["part"]}:{len(case["grid"])}d')
+        ref = None
+        if case['part'] == 'e45-recon':
+            bad, ref = judge_e45(case)
+            for b in bad:
+                ctx.violation(b, case)
+            if bad:
+                continue
+            lines.append(f'c20e45_recon {enc_ints(case["grid"])} {case["type"]}')
+        else:
+            lines.append(f'c20e45_tuples {enc_ints(case["grid"])}')
+        meta.append((case, ref))
+    if not lean:
+        return
+    outs = _lean(ctx, lines)
+    for (case, ref), o in zip(meta, outs):
+        grid = case['grid']
+        if case['part'] == 'e45-tuples':
+            got = [tuple(int(v) for v in t.split(',')) for t in o.split('|')] if o else []
+            want = list(itertools.product(*[range(1, g + 1) for g in grid]))
+            if got != want:
+                ctx.corr('index tuples of the completeness theorems (tuplesQ)', case, o[:120], str(want[:8]))
+                continue
+            n = len(want)
+            if 2 <= n <= 400:
+                # the closed form on the theorem's tuples against the numeric spectrum of the real matrices
+                for ty in ('FD', 'FE'):
+                    D = _poisson_dense(grid, ty)
+                    if D is None or not np.array_equal(D, D.T):
+                        continue
+                    cs = [[math.cos(k * math.pi / (g + 1)) for g, k in zip(grid, ks)] for ks in got]
+                    fv = np.sort([sum(2 - 2 * c for c in c_) if ty == 'FD' else 3 ** len(grid) - math.prod(1 + 2 * c for c in c_)
+                                  for c_ in cs])
+                    ev = np.linalg.eigvalsh(D)
+                    err = float(np.abs(ev - fv).max()) / max(1.0, float(fv.max()))
+                    ctx.rel_err(err)
+                    if err > 1e-9:
+                        ctx.violation(f'poisson({tuple(grid)}, type={ty!r}): the sorted spectrum differs from the closed form on '
+                                      f'the index tuples of the completeness theorems by {err:.2e} (relative)',
+                                      dict(case, part='poisson', type=ty, format='csr', dtype=None))
+            continue
+        if o in ('err', 'irrational'):
+            ctx.corr('c20e45_recon', case, o, 'rational eigen-system')
+            continue
+        f = o.split(';')
+        D, cnt = ref['D'], ref['cnt']
+        n = D.shape[0]
+        lams = sorted(Fraction(v) for v in f[0].split(','))
+        if lams != sorted(l for l, c in cnt.items() for _ in range(c)):
+            ctx.corr('closed-form eigenvalues on tuplesQ (eigQ)', case, f[0][:120], str(sorted(cnt.items()))[:120])
+        R = [[Fraction(v) for v in row.split(',')] for row in f[1].split('|')]
+        if R != [[Fraction(int(D[i, j])) for j in range(n)] for i in range(n)]:
+            ctx.corr('spectral reconstruction sum_m lam_m V_m V_m^T / |V_m|^2 = A (completeness)', case, f[1][:120],
+                     str(D.tolist())[:120])
+        I = [[Fraction(v) for v in row.split(',')] for row in f[2].split('|')]
+        if I != [[Fraction(int(i == j)) for j in range(n)] for i in range(n)]:
+            ctx.corr('completeness relation sum_m V_m V_m^T / |V_m|^2 = I', case, f[2][:120], 'identity')
+        if f[3] != '1':
+            ctx.corr('closed-form pairs: roots / eigenpairs of the model / pairwise orthogonal / nonzero', case, f[3], '1')
+
+
 # ---------------------------------------------------------------- entry points
 
 def run(ctx):
@@ -1039,6 +1183,7 @@ def run(ctx):
     part_diffusion(ctx, ctx.scale(240, 3000), ctx.scale(80, 1000))
     part_elas(ctx)
     part_e21(ctx)
+    part_e45(ctx)
 
 
 def search(ctx):
@@ -1049,6 +1194,7 @@ def search(ctx):
     part_diffusion(ctx, 2000, 600, lean=False)
     part_elas(ctx, lean=False, deep=True)
     part_e21(ctx, lean=False, deep=True)
+    part_e45(ctx, lean=False, deep=True)
 
 
 def replay(ctx, data):
@@ -1063,6 +1209,8 @@ def replay(ctx, data):
         bad = judge_diff(case, run_diff(case))
     elif str(part).startswith('e21-'):
         bad = judge_e21(case)[0]
+    elif part == 'e45-recon':
+        bad = judge_e45(case)[0]
     else:
         bad = judge_elas(case, run_elas(case))
     for b in bad:
